@@ -47,8 +47,9 @@ def rules(model: Model, tier: str) -> List[RuleResult]:
     ac.ac7_no_inplace_on_apply_outputs(model, fc.backward, R7)
     _ts_gating(fc, T)
     _modes_layout(model, fc, T)
-    Yr = RuleResult(PROP, "C08-Y", "backward sweep re-anchors y to the stored forward values and adds the incoming gradient at the same index", min_instances=4)
+    Yr = RuleResult(PROP, "C08-Y", "backward sweep re-anchors y to the stored forward values and adds the incoming gradient at the same index; no segment is skipped", min_instances=5)
     _reanchoring(fc, Yr)
+
     _hy = ac.hygiene_rules(model, ac.get_fncls(model, '_SolveIVP'), PROP, min_copies=5, min_opt=2, min_conv=1, min_idx=6)
     return [R1, R2, R3, R4, R5, R6, R7, T, *_hy, Yr]
 
@@ -106,6 +107,14 @@ def _reanchoring(fc, Y: RuleResult):
         Y.ok(bw.fq, "the incoming gradient at the same index is added to the propagated adjoint: `%s`" % norm_stmt(gs))
     else:
         Y.bad(bw, gs or loop, "the adjoint slot must become grad_yt[k] + (propagated adjoint) with the same index k used for the forward value")
+    # every segment goes through the recursive integration: no skip, no early exit
+    applies = [i for i, s_ in enumerate(loop.body) if isinstance(s_, ast.Assign) and isinstance(s_.value, ast.Call) and ast.unparse(s_.value.func).endswith(".apply")]
+    jumps = [n for n in ast.walk(loop) if isinstance(n, (ast.Continue, ast.Break))]
+    if len(applies) == 1 and not jumps:
+        Y.ok(bw.fq, "every segment is integrated by the recursive apply (unconditional, at loop-body level; the loop has no continue/break)")
+    else:
+        Y.bad(bw, jumps[0] if jumps else loop, "a segment of the backward sweep can skip the recursive integration (continue/break or a conditional apply): those segments drop "
+              "out of a recorded backward pass, so second-order gradients through them are lost even when the first-order value is unchanged")
     # the running index moves by exactly one per iteration, before the re-anchoring
     idxname = idx0
     steps = [i for i, s in enumerate(loop.body) if isinstance(s, ast.AugAssign) and isinstance(s.target, ast.Name) and s.target.id == idxname]
